@@ -381,12 +381,15 @@ Check(s, e) ==
 
 Mutating(e) == e.proc \in {"SETATTR", "WRITE", "CREATE", "MKDIR", "SYMLINK", "REMOVE", "RMDIR", "RENAME"}
 
-(* keep active sessions in step with a changed directory *)
-SessTrack(sess, objs) ==
+(* keep active sessions in step with a changed directory. A directory entry is a name WITH the object it denotes: *)
+(* a name that is re-bound to another object (RENAME over it, REMOVE + CREATE) is a removed entry and an added one,  *)
+(* neither of which was in the directory throughout the enumeration.                                                *)
+SessTrack(sess, old, objs) ==
   [d \in DOMAIN sess |->
      IF ~sess[d].active THEN sess[d]
      ELSE IF d \notin DOMAIN objs THEN [sess[d] EXCEPT !.active = FALSE]
-     ELSE [sess[d] EXCEPT !.through = @ \cap DOMAIN objs[d].ents, !.ever = @ \cup DOMAIN objs[d].ents]]
+     ELSE [sess[d] EXCEPT !.through = {n \in @ \cap DOMAIN objs[d].ents : n \in DOMAIN old[d].ents /\ old[d].ents[n] = objs[d].ents[n]},
+                          !.ever = @ \cup DOMAIN objs[d].ents]]
 
 LastWrite(histw, o) ==   \* index of the last history entry that wrote object o (0 = none)
   LET I == {i \in 1..Len(histw) : histw[i] = o} IN
@@ -415,7 +418,7 @@ NextCore(s, e) ==
                                  !.histw = SubSeq(s2.histw, k + 1, Len(s2.histw)),
                                  !.histn = SubSeq(s2.histn, k + 1, Len(s2.histn))]
             ELSE s2
-      s4 == IF chg THEN [s3 EXCEPT !.sess = SessTrack(@, objs2),
+      s4 == IF chg THEN [s3 EXCEPT !.sess = SessTrack(@, s.objs, objs2),
                                    !.cookies = [d \in DOMAIN @ \cap DOMAIN objs2 |-> @[d]]]
             ELSE s3
       s5 == IF e.proc \in {"READDIR", "READDIRPLUS"}
